@@ -1,11 +1,14 @@
 import Cactus.Lemmas.Basic
 import Cactus.Lemmas.Table
+import Cactus.Lemmas.PayAsYouGo
 /-!
 # C14 — objects without recorded adoptions pay no tracing cost
 
 Dropping or cloning a handle to an object whose bookkeeping is empty performs no reachability
 trace.  In the model a trace is visible as a `traced` event and nowhere else; "no heap
 allocation" on the real allocator is observed by the harness (channel T / oracle O14), not proved.
+First the one-step lemmas, then the statements about whole histories
+(`Cactus.Lemmas.PayAsYouGo.*`).
 -/
 namespace Cactus
 open State
@@ -49,5 +52,55 @@ theorem C14_unadopt_all_empty (k : Link) (n : Nat) :
 /-- non-vacuity: a shared object with an empty table exists and the drop really is silent -/
 example : (({ heap := [{ strong := .cnt 2, weak := 1, links := some [], value := none, freed := false }] } : State).rcDrop 0).log = [] := by
   decide
+
+
+/-! ## Whole histories (`Cactus.Lemmas.PayAsYouGo.*`)
+
+* `C14_every_trace_has_a_cause` (no hypothesis on the state at all): the events one machine step
+  appends contain a `traced o _ _` only if `o`'s link table was non-empty in the state the step
+  started from; `C14_trace_only_from_rcDrop`: at most one such event per step, and only from a frame
+  `rcDrop o`; `C14_actions_never_trace`: top-level actions never trace by themselves.
+  `C14_every_logged_trace_has_a_cause`: for every reachable state (operation boundary or
+  mid-teardown) and every `traced o v p` event at position `i` of its log there is a reachable
+  state whose log is the first `i` events, whose next step appended exactly that event, and in which
+  `o`'s table was non-empty.
+* Per object: with `touched ops` the (ghost) list of objects designated by an `adopt`/`link` of the
+  history, at top level or inside a destructor script — `C14_untouched_objects_have_empty_tables`:
+  an object outside that list has an empty (or moved-out) table at the end of the history, and
+  `C14_only_touched_objects_root_a_trace`: no trace of the whole history is rooted at it
+  (`ReachableT` versions: in every state of the history).  Whatever the other objects do, an object
+  that never took part in a recorded adoption never pays.
+* `C14_program_without_adoptions_never_traces`, `C14_program_without_adoptions_has_empty_tables`:
+  a history none of whose operations (incl. destructor scripts) is `adopt`/`link` never runs a
+  trace and all its tables stay empty — `C14_noAdopt_every_state` for every intermediate state.
+* Non-vacuity: `C14_example_no_adoptions` (22 operations over 5 objects with clones, stored
+  handles, Weak handles, a destructor script, `makeMut`, `tryUnwrap`; everything destroyed and
+  released; no `traced` event — by evaluation and by the theorem) and `C14_example_bystander`
+  (a `link` two-cycle is traced and collected while a bystander object is cloned and dropped: no
+  trace is rooted at the bystander). -/
+
+theorem C14_every_trace_has_a_cause : type_of% @trace_has_cause_step := @trace_has_cause_step
+theorem C14_trace_only_from_rcDrop : type_of% @step_log_cases := @step_log_cases
+theorem C14_actions_never_trace : type_of% @trace_has_cause_applyAct := @trace_has_cause_applyAct
+theorem C14_operations_never_trace : type_of% @trace_has_cause_applyOp := @trace_has_cause_applyOp
+theorem C14_every_logged_trace_has_a_cause : type_of% @reachable_trace_has_cause :=
+  @reachable_trace_has_cause
+theorem C14_untouched_objects_have_empty_tables : type_of% @run_untouched_tables_empty :=
+  @run_untouched_tables_empty
+theorem C14_only_touched_objects_root_a_trace : type_of% @run_trace_root_touched :=
+  @run_trace_root_touched
+theorem C14_untouched_every_state : type_of% @ReachableT.untouched_untabled :=
+  @ReachableT.untouched_untabled
+theorem C14_traced_touched_every_state : type_of% @ReachableT.traced_touched :=
+  @ReachableT.traced_touched
+theorem C14_program_without_adoptions_never_traces : type_of% @run_noAdopt_no_trace :=
+  @run_noAdopt_no_trace
+theorem C14_program_without_adoptions_has_empty_tables : type_of% @run_noAdopt_tables_empty :=
+  @run_noAdopt_tables_empty
+theorem C14_noAdopt_every_state : type_of% @ReachableN.invariant := @ReachableN.invariant
+theorem C14_example_no_adoptions : type_of% @PayAsYouGoExample.hN_no_trace :=
+  @PayAsYouGoExample.hN_no_trace
+theorem C14_example_bystander : type_of% @PayAsYouGoExample.hA_bystander :=
+  @PayAsYouGoExample.hA_bystander
 
 end Cactus
